@@ -339,6 +339,9 @@ func Reduced(T int, seed uint64) []Piece {
 		P(fmt.Sprintf("3fill(text,%d)", 3*T+5), Text(3*T+5, seed+1)),
 		P("zero-long(70001)", Zero(70001, 'z')),
 		P("empty", nil),
+		// after a full buffer has been compressed and slid, this many bytes fill it again exactly (T = 2W+258, so
+		// T-(T-258)/2 = W+258): the second and every later full-buffer point
+		P(fmt.Sprintf("again-full(text,%d)", T-(T-258)/2), Text(T-(T-258)/2, seed+2)),
 	}
 }
 
